@@ -282,6 +282,31 @@ pub fn programs() -> Vec<(String, Program)> {
         let roots = vec![Src::App(3, vec![]), Src::App(7, vec![]), Src::App(10, vec![])];
         out.push(("param-subtree".into(), Program { defs, roots }));
     }
+    // round-6 seeded changes: (C17-6) a generic whose parameter is instantiated with a Compact type in one
+    // instantiation and a plain type in another (the item must not depend on which comes first);
+    // (C08-6) a recursive root that is generic, whose LATER instantiation reaches more types;
+    // (C18-6) one field list with a compact and a plain field of the same recorded type name
+    {
+        let defs = vec![
+            strukt(&["r6", "Wrapper"], &[("T", false)], vec![f(Some("value"), Src::Param(0))]),          // 0
+            strukt(&["r6", "Leaf"], &[], vec![f(Some("v"), Src::Prim("u16"))]),                           // 1
+            strukt(&["r6", "Deep"], &[], vec![f(Some("leaf"), Src::App(1, vec![])), f(Some("n"), Src::Prim("u8"))]), // 2
+            strukt(&["r6", "Holder"], &[], vec![
+                f(Some("a"), Src::App(0, vec![Src::Prim("u8")])),                                         // Wrapper<u8> first: reaches nothing
+                f(Some("b"), Src::App(0, vec![Src::App(2, vec![])])),                                     // Wrapper<Deep> later: reaches Deep, Leaf
+                f(Some("c"), Src::App(0, vec![Src::Compact(bx(Src::Prim("u32")))])),                      // Wrapper<Compact<u32>>
+                f(Some("d"), Src::App(0, vec![Src::Prim("u64")])),
+            ]),                                                                                           // 3
+            strukt(&["r6", "Fees"], &[], vec![f(Some("dest"), Src::Prim("u8")), fc(Some("value"), Src::Prim("u128")), f(Some("fee_cap"), Src::Prim("u128"))]), // 4
+            Def { path: p(&["r6", "Call"]), params: vec![], docs: vec![],
+                  body: Body::Enum(vec![
+                      ("transfer_with_cap".into(), 0, vec![f(Some("dest"), Src::Prim("u8")), fc(Some("value"), Src::Prim("u128")), f(Some("fee_cap"), Src::Prim("u128"))], vec![]),
+                      ("set_limits".into(), 1, vec![f(None, Src::Prim("u32")), fc(None, Src::Prim("u32"))], vec![]),
+                  ]) },                                                                                   // 5
+        ];
+        let roots = vec![Src::App(3, vec![]), Src::App(4, vec![]), Src::App(5, vec![])];
+        out.push(("round6".into(), Program { defs, roots }));
+    }
     out
 }
 
